@@ -67,7 +67,8 @@ def roles(model):
                     ast.fix_missing_locations(fn)
                     for node in ast.walk(fn):
                         for ch in ast.iter_child_nodes(node):
-                            ch._parent = node
+                            if not isinstance(ch, (ast.expr_context, ast.operator, ast.cmpop, ast.boolop, ast.unaryop)):
+                                ch._parent = node
                     r["PHLK"] = n.targets[0].attr
                     r["SET_PHLK"] = fn.name
                     break
@@ -458,7 +459,7 @@ def solver_loops_state(model, rep, r, rule):
     for meth, pred, what, kw in ((r["FWD"], lambda l: iter_is_role(l, r["TOPO"]), "forward pass", {"parent_attr": r["PARENTS"]}),
                                  (r["BACK"], lambda l: iter_is_role(l, r["TOPO"]), "backward pass", {"child_attr": r["CHILDS"]}),
                                  (r["CHILD_I"], lambda l: iter_is_role(l, r["CHILDS"]), "child-current sum", {}),
-                                 (sol["init"].value.func.attr, lambda l: True, "initialiser", {})):
+                                 (sol["init"].value.func.attr, lambda l: True, "initialiser", {"parent_attr": r["PARENTS"]})):
         fn = model.own_method("System", meth)
         if fn is None:
             raise AnalysisError("System.%s not found" % meth)
@@ -466,7 +467,10 @@ def solver_loops_state(model, rep, r, rule):
         if not loops:
             raise AnalysisError("%s: loop not found" % meth)
         for loop in loops:
-            iteration_state_rule(model, rep, rule, "system.System.%s" % meth, "%s:%d" % (rel, loop.lineno), loop, what, **kw)
+            kw2 = dict(kw)
+            if what == "initialiser" and not iter_is_role(loop, r["TOPO"]):
+                kw2.pop("parent_attr", None)        # a parent's slot is only known to be filled when parents come first
+            iteration_state_rule(model, rep, rule, "system.System.%s" % meth, "%s:%d" % (rel, loop.lineno), loop, what, **kw2)
             n += 1
     return n
 
@@ -625,7 +629,8 @@ def sink_map_columns(model, fn, is_row):
             ast.fix_missing_locations(new)
             for node in ast.walk(new):
                 for ch in ast.iter_child_nodes(node):
-                    ch._parent = node
+                    if not isinstance(ch, (ast.expr_context, ast.operator, ast.cmpop, ast.boolop, ast.unaryop)):
+                        ch._parent = node
             out = new
     model.__dict__[key] = out
     return out
@@ -801,7 +806,8 @@ def solver_normal_form(fn, model=None):
         fn.body = [s for s in fn.body if not isinstance(s, ast.FunctionDef)]
         for node in ast.walk(fn):
             for ch in ast.iter_child_nodes(node):
-                ch._parent = node
+                if not isinstance(ch, (ast.expr_context, ast.operator, ast.cmpop, ast.boolop, ast.unaryop)):
+                    ch._parent = node
     loops = [s for s in fn.body if isinstance(s, ast.While)]
     if len(loops) != 1:
         return fn
@@ -832,7 +838,8 @@ def solver_normal_form(fn, model=None):
     ast.fix_missing_locations(new)
     for node in ast.walk(new):
         for ch in ast.iter_child_nodes(node):
-            ch._parent = node
+            if not isinstance(ch, (ast.expr_context, ast.operator, ast.cmpop, ast.boolop, ast.unaryop)):
+                ch._parent = node
     return new
 
 
@@ -917,7 +924,8 @@ def c04_propagation(model, rep):
     if init_name is None or model.own_method("System", init_name) is None:
         raise AnalysisError("solver initialiser not resolved")
     ifn, loop, cl, env = body_leaves(model, r, init_name, lambda l: isinstance(l, ast.For), "init loop")
-    loop_domain_rule(rep, "R3", model, loop, "system.System.%s" % init_name, ["self._get_nodes()"], "the solver initialisation")
+    # every node once: the node list, or the topological order (needed when a node's seed looks at what was recorded for its parents)
+    loop_domain_rule(rep, "R3", model, loop, "system.System.%s" % init_name, ["self._get_nodes()", "self.%s" % r["TOPO"]], "the solver initialisation")
     ps = [a.arg for a in ifn.args.args][1:]
     # the three vectors: targets of the tuple assignment from the vector constructor
     vec = None
@@ -1220,6 +1228,15 @@ def iteration_state_rule(model, rep, rule, construct, where, loop, what, parent_
                     if attr and lv and isinstance(root, ast.Name):
                         for s in ast.walk(loop):
                             if isinstance(s, ast.Assign) and len(s.targets) == 1 and is_name(s.targets[0], root.id) and ast.unparse(s.value) == "self.%s[%s]" % (attr, lv):
+                                good = True
+                    # x[k] for k in self._parents[n]  /  for k in p  with p = self._parents[n]  (comprehension or inner loop)
+                    if attr and lv and isinstance(idx, ast.Name):
+                        plist = {"self.%s[%s]" % (attr, lv)}
+                        for s in ast.walk(loop):
+                            if isinstance(s, ast.Assign) and len(s.targets) == 1 and isinstance(s.targets[0], ast.Name) and ast.unparse(s.value) == "self.%s[%s]" % (attr, lv):
+                                plist.add(s.targets[0].id)
+                        for g in ast.walk(loop):
+                            if isinstance(g, (ast.comprehension, ast.For)) and g is not loop and is_name(g.target, idx.id) and ast.unparse(g.iter) in plist:
                                 good = True
             if not good and rekeyed_before_read(loop, name, line):
                 good = True                                       # (d)
@@ -1570,7 +1587,8 @@ def inline_pure_aliases_keep_parent(fn):
     fn = inline_pure_aliases(fn)
     for node in ast.walk(fn):
         for ch in ast.iter_child_nodes(node):
-            ch._parent = node
+            if not isinstance(ch, (ast.expr_context, ast.operator, ast.cmpop, ast.boolop, ast.unaryop)):
+                ch._parent = node
     return fn
 
 
